@@ -516,6 +516,82 @@ func nameEqLits(p *packages.Package, fn string) []string {
 	return out
 }
 
+// optionSpecs reads every package-level `var specOptX = map[string]Option{...}` of package frundis.
+func optionSpecs(p *packages.Package) []string {
+	var out []string
+	for _, f := range p.Syntax {
+		for _, d := range f.Decls {
+			gd, ok := d.(*ast.GenDecl)
+			if !ok || gd.Tok != token.VAR {
+				continue
+			}
+			for _, sp := range gd.Specs {
+				vs := sp.(*ast.ValueSpec)
+				for i, nm := range vs.Names {
+					if !strings.HasPrefix(nm.Name, "specOpt") || i >= len(vs.Values) {
+						continue
+					}
+					cl, ok := vs.Values[i].(*ast.CompositeLit)
+					if !ok {
+						die("%s: not a composite literal", nm.Name)
+					}
+					var kvs []string
+					for _, e := range cl.Elts {
+						kv, ok := e.(*ast.KeyValueExpr)
+						if !ok {
+							die("%s: element shape", nm.Name)
+						}
+						k, ok1 := kv.Key.(*ast.BasicLit)
+						v, ok2 := kv.Value.(*ast.Ident)
+						if !ok1 || !ok2 || (v.Name != "ArgOption" && v.Name != "FlagOption") {
+							die("%s: key/value shape", nm.Name)
+						}
+						ks, _ := strconv.Unquote(k.Value)
+						kvs = append(kvs, fmt.Sprintf("(%s, %v)", coqStr(ks), v.Name == "ArgOption"))
+					}
+					out = append(out, fmt.Sprintf("(%s, [%s])", coqStr(nm.Name), strings.Join(kvs, "; ")))
+				}
+			}
+		}
+	}
+	sort.Strings(out)
+	if len(out) == 0 {
+		die("no option specs found")
+	}
+	return out
+}
+
+// parseOptionsUses lists, per function of package frundis, the spec identifiers it passes to ParseOptions.
+func parseOptionsUses(p *packages.Package) []string {
+	var out []string
+	for _, f := range p.Syntax {
+		for _, d := range f.Decls {
+			fd, ok := d.(*ast.FuncDecl)
+			if !ok || fd.Body == nil {
+				continue
+			}
+			ast.Inspect(fd.Body, func(n ast.Node) bool {
+				ce, ok := n.(*ast.CallExpr)
+				if !ok {
+					return true
+				}
+				sel, ok := ce.Fun.(*ast.SelectorExpr)
+				if !ok || sel.Sel.Name != "ParseOptions" || len(ce.Args) < 1 {
+					return true
+				}
+				name := "<computed>"
+				if id, ok := ce.Args[0].(*ast.Ident); ok {
+					name = id.Name
+				}
+				out = append(out, fmt.Sprintf("(%s, %s)", coqStr(fd.Name.Name), coqStr(name)))
+				return true
+			})
+		}
+	}
+	sort.Strings(out)
+	return uniq(out)
+}
+
 func genFacts(pkgs []*packages.Package, out string) {
 	prog, _ := ssautil.AllPackages(pkgs, ssa.InstantiateGenerics)
 	prog.Build()
@@ -847,6 +923,8 @@ func genFacts(pkgs []*packages.Package, out string) {
 	fr := findPkg(pkgs, "/frundis")
 	fmt.Fprintf(&b, "(* frundis.DefaultExporterMacros / MinimalExporterMacros: macro name, handler *)\nDefinition dispatch_table : list (string * string) :=\n  [%s].\n\n", strings.Join(dispatchTable(fr, "DefaultExporterMacros"), ";\n   "))
 	fmt.Fprintf(&b, "Definition minimal_dispatch_table : list (string * string) :=\n  [%s].\n\n", strings.Join(dispatchTable(fr, "MinimalExporterMacros"), ";\n   "))
+	fmt.Fprintf(&b, "(* options.go: per option table, option name and whether it takes an argument *)\nDefinition opt_specs : list (string * list (string * bool)) :=\n  [%s].\n\n", strings.Join(optionSpecs(fr), ";\n   "))
+	fmt.Fprintf(&b, "(* which table each function hands to ParseOptions *)\nDefinition parse_options_uses : list (string * string) :=\n  [%s].\n\n", strings.Join(parseOptionsUses(fr), ";\n   "))
 	fmt.Fprintf(&b, "(* processBlock: macro names that do not become PrevMacro *)\nDefinition invisible_names : list string :=\n  [%s].\n\n", strings.Join(nameEqLits(fr, "processBlock"), "; "))
 	var files []string
 	for f := range perFile {
